@@ -523,6 +523,20 @@ Walk:
 				if !lazy {
 					copyWithResize(c.tsrParams, c.params)
 				}
+			} else if !strings.HasSuffix(path, "/") && charsMatched == len(path) && charsMatchedInNodeFound == len(current.key) {
+				// Tsr recommendation: add an extra trailing slash (got an exact match with an intermediary node
+				// which has a "/" leaf child).
+				// /foo
+				//	  / [leaf=/foo/]
+				//	  bar [leaf=/foobar]
+				if idx := linearSearch(current.childKeys, slashDelim); idx >= 0 && current.children[idx].isLeaf() && current.children[idx].key == "/" {
+					tsr = true
+					n = current.children[idx]
+					// Save also a copy of the matched params, it should not allocate anything in most case.
+					if !lazy {
+						copyWithResize(c.tsrParams, c.params)
+					}
+				}
 			}
 		}
 
